@@ -10,6 +10,10 @@ import (
 func C06Scenario() *Scenario {
 	return &Scenario{Prop: "C06", Init: func(w *World) {
 		t := w.T
+		if t.Pick(4, "family") == 3 {
+			c06Lagging(w)
+			return
+		}
 		methods := []string{"InPlace", "", "OnDelete", "Recreate", "RollingInPlace", "RollingRecreate", "Sideways"}
 		s := NewCompositeSetup(w, GenOpts{Methods: methods, MaxWorkers: 1, MaxParents: 1, MaxReplicas: 3, GenSel: 0, Finalize: 0, OneKind: false})
 		// start from an empty neighbourhood: remove generated initial objects
